@@ -6,6 +6,79 @@ random operation histories and by `np.shares_memory` observations). -/
 namespace C09
 open Views
 
+/-! ## helper lemmas -/
+/-- the column table of an object whose columns were allocated consecutively from array id `n` -/
+def objCols (n : Nat) (cols : List (Col × List Int)) : List (Col × ArrId) :=
+  (cols.zipIdx n).map fun p => (p.1.1, p.2)
+
+theorem newObject_fold (cols : List (Col × List Int)) (h : Heap) (acc : List (Col × ArrId)) :
+    cols.foldl (fun (acc : Heap × List (Col × ArrId)) cd =>
+      let a := acc.1.alloc cd.2
+      (a.1, acc.2 ++ [(cd.1, a.2)])) (h, acc) =
+    ({ h with arrs := h.arrs ++ cols.map (·.2) }, acc ++ objCols h.arrs.length cols) := by
+  induction cols generalizing h acc with
+  | nil => simp [objCols]
+  | cons cd cols ih =>
+    rw [List.foldl_cons, ih]
+    simp [Heap.alloc, objCols, List.zipIdx_cons]
+
+theorem newObject_eq (h : Heap) (cols : List (Col × List Int)) :
+    newObject h cols =
+      (⟨h.arrs ++ cols.map (·.2), h.objs ++ [⟨objCols h.arrs.length cols⟩], h.views⟩, h.objs.length) := by
+  simp [newObject, newObject_fold]
+
+theorem objCols_length (n : Nat) (cols : List (Col × List Int)) : (objCols n cols).length = cols.length := by
+  simp [objCols]
+
+theorem objCols_getElem (n : Nat) (cols : List (Col × List Int)) (k : Nat) (hk : k < (objCols n cols).length) :
+    (objCols n cols)[k] = ((cols[k]'(by simpa [objCols] using hk)).1, n + k) := by
+  simp [objCols]
+
+theorem objCols_names (n : Nat) (cols : List (Col × List Int)) :
+    (objCols n cols).map (·.1) = cols.map (·.1) := by
+  apply List.ext_getElem <;> simp [objCols]
+
+theorem objCols_mem (n : Nat) (cols : List (Col × List Int)) (ca : Col × ArrId) (hm : ca ∈ objCols n cols) :
+    ∃ k, ∃ (hk : k < cols.length), ca = (cols[k].1, n + k) := by
+  obtain ⟨k, hk, rfl⟩ := List.mem_iff_getElem.mp hm
+  exact ⟨k, by simpa [objCols] using hk, objCols_getElem n cols k hk⟩
+
+theorem mapM_some {α β} (f : α → Option β) : ∀ (l : List α) (l' : List β), l.mapM f = some l' →
+    l'.length = l.length ∧ ∀ k (h1 : k < l.length) (h2 : k < l'.length), f l[k] = some l'[k] := by
+  intro l
+  induction l with
+  | nil => intro l' h; simp at h; subst h; simp
+  | cons a l ih =>
+    intro l' h
+    rw [List.mapM_cons] at h
+    cases hfa : f a with
+    | none => simp [hfa] at h
+    | some b =>
+      cases hl : l.mapM f with
+      | none => simp [hfa, hl] at h
+      | some bs =>
+        simp [hfa, hl] at h
+        subst h
+        obtain ⟨i1, i2⟩ := ih bs hl
+        refine ⟨by simp [i1], ?_⟩
+        intro k h1 h2
+        cases k with
+        | zero => simpa using hfa
+        | succ k => simpa using i2 k (by simpa using h1) (by simpa using h2)
+
+theorem mapM_isSome {α β} (f : α → Option β) : ∀ (l : List α), (∀ a ∈ l, (f a).isSome) → (l.mapM f).isSome := by
+  intro l
+  induction l with
+  | nil => intro _; simp
+  | cons a l ih =>
+    intro h
+    rw [List.mapM_cons]
+    have h1 := h a (by simp)
+    have h2 := ih (fun x hx => h x (by simp [hx]))
+    obtain ⟨b, hb⟩ := Option.isSome_iff_exists.mp h1
+    obtain ⟨bs, hbs⟩ := Option.isSome_iff_exists.mp h2
+    simp [hb, hbs]
+
 /-- every column of every object names an allocated array, and no array is named twice (by two objects or by
 two columns): distinct owners have disjoint storage -/
 def WFHeap (h : Heap) : Prop :=
@@ -14,15 +87,265 @@ def WFHeap (h : Heap) : Prop :=
       ca1.2 = ca2.2 → o1 = o2 ∧ ca1.1 = ca2.1) ∧
   (∀ o (ho : o < h.objs.length), ((h.objs[o]).cols.map (·.1)).Nodup)
 
+/-- `WFHeap` phrased with `getElem?` (easier to transport along `++`) -/
+def WFHeap' (arrsLen : Nat) (objs : List Obj) : Prop :=
+  (∀ (o : Nat) (ob : Obj), objs[o]? = some ob → ∀ ca ∈ ob.cols, ca.2 < arrsLen) ∧
+  (∀ (o1 o2 : Nat) (ob1 ob2 : Obj), objs[o1]? = some ob1 → objs[o2]? = some ob2 → ∀ ca1 ∈ ob1.cols, ∀ ca2 ∈ ob2.cols,
+      ca1.2 = ca2.2 → o1 = o2 ∧ ca1.1 = ca2.1) ∧
+  (∀ (o : Nat) (ob : Obj), objs[o]? = some ob → (ob.cols.map (·.1)).Nodup)
+
+theorem wf_iff (h : Heap) : WFHeap h ↔ WFHeap' h.arrs.length h.objs := by
+  constructor
+  · rintro ⟨w1, w2, w3⟩
+    refine ⟨?_, ?_, ?_⟩
+    · intro o ob ho
+      obtain ⟨h1, rfl⟩ := List.getElem?_eq_some_iff.mp ho
+      exact w1 o h1
+    · intro o1 o2 ob1 ob2 ho1 ho2
+      obtain ⟨h1, rfl⟩ := List.getElem?_eq_some_iff.mp ho1
+      obtain ⟨h2, rfl⟩ := List.getElem?_eq_some_iff.mp ho2
+      exact w2 o1 o2 h1 h2
+    · intro o ob ho
+      obtain ⟨h1, rfl⟩ := List.getElem?_eq_some_iff.mp ho
+      exact w3 o h1
+  · rintro ⟨w1, w2, w3⟩
+    refine ⟨?_, ?_, ?_⟩
+    · intro o ho
+      exact w1 o _ (List.getElem?_eq_getElem ho)
+    · intro o1 o2 h1 h2
+      exact w2 o1 o2 _ _ (List.getElem?_eq_getElem h1) (List.getElem?_eq_getElem h2)
+    · intro o ho
+      exact w3 o _ (List.getElem?_eq_getElem ho)
+
+theorem getElem?_snoc {α} (l : List α) (x : α) (o : Nat) (y : α) (hy : (l ++ [x])[o]? = some y) :
+    l[o]? = some y ∨ (o = l.length ∧ y = x) := by
+  by_cases h : o < l.length
+  · left; rwa [List.getElem?_append_left h] at hy
+  · right
+    rw [List.getElem?_append_right (by omega)] at hy
+    have : o - l.length = 0 := by
+      rcases Nat.eq_zero_or_pos (o - l.length) with h0 | h0
+      · exact h0
+      · rw [List.getElem?_eq_none (by simp; omega)] at hy; cases hy
+    rw [this] at hy
+    simp at hy
+    exact ⟨by omega, hy.symm⟩
+
+theorem wf'_snoc (n : Nat) (objs : List Obj) (cols : List (Col × List Int))
+    (hw : WFHeap' n objs) (hn : (cols.map (·.1)).Nodup) :
+    WFHeap' (n + cols.length) (objs ++ [⟨objCols n cols⟩]) := by
+  obtain ⟨w1, w2, w3⟩ := hw
+  have old : ∀ o ob, objs[o]? = some ob → o < objs.length := fun o ob ho =>
+    (List.getElem?_eq_some_iff.mp ho).1
+  refine ⟨?_, ?_, ?_⟩
+  · intro o ob ho ca hca
+    rcases getElem?_snoc _ _ _ _ ho with ho | ⟨-, rfl⟩
+    · have : @LT.lt Nat _ ca.2 n := w1 o ob ho ca hca
+      show @LT.lt Nat _ ca.2 (n + cols.length)
+      omega
+    · obtain ⟨k, hk, rfl⟩ := objCols_mem _ _ _ hca
+      simp; omega
+  · intro o1 o2 ob1 ob2 ho1 ho2 ca1 hca1 ca2 hca2 e
+    rcases getElem?_snoc _ _ _ _ ho1 with ho1 | ⟨rfl, rfl⟩ <;>
+      rcases getElem?_snoc _ _ _ _ ho2 with ho2 | ⟨rfl, rfl⟩
+    · exact w2 o1 o2 ob1 ob2 ho1 ho2 ca1 hca1 ca2 hca2 e
+    · exfalso
+      have : @LT.lt Nat _ ca1.2 n := w1 o1 ob1 ho1 ca1 hca1
+      obtain ⟨k, hk, rfl⟩ := objCols_mem _ _ _ hca2
+      have e' : @Eq Nat ca1.2 (n + k) := e
+      omega
+    · exfalso
+      have : @LT.lt Nat _ ca2.2 n := w1 o2 ob2 ho2 ca2 hca2
+      obtain ⟨k, hk, rfl⟩ := objCols_mem _ _ _ hca1
+      have e' : @Eq Nat (n + k) ca2.2 := e
+      omega
+    · obtain ⟨k1, hk1, rfl⟩ := objCols_mem _ _ _ hca1
+      obtain ⟨k2, hk2, rfl⟩ := objCols_mem _ _ _ hca2
+      simp at e
+      subst e
+      exact ⟨rfl, rfl⟩
+  · intro o ob ho
+    rcases getElem?_snoc _ _ _ _ ho with ho | ⟨-, rfl⟩
+    · exact w3 o ob ho
+    · rw [objCols_names]; exact hn
+
+theorem newObject_wf (h : Heap) (cols : List (Col × List Int)) (hw : WFHeap h) (hn : (cols.map (·.1)).Nodup) :
+    WFHeap (newObject h cols).1 := by
+  rw [wf_iff] at hw ⊢
+  rw [newObject_eq]
+  simpa using wf'_snoc _ _ cols hw hn
+
+theorem setArr_arr_self (h : Heap) (a k : Nat) (v : Int) (ha : a < h.arrs.length) :
+    (setArr h a k v).arr a = (h.arr a).set k v := by
+  simp [setArr, Heap.arr, List.getD, ha]
+
+theorem setArr_arr_ne (h : Heap) (a a' k : Nat) (v : Int) (hne : a' ≠ a) :
+    (setArr h a k v).arr a' = h.arr a' := by
+  simp [setArr, Heap.arr, List.getD, Ne.symm hne]
+
+/-- `colArr` returns a pair that is in the object's column list -/
+theorem colArr_mem (h : Heap) (o : Nat) (c : Col) (a : ArrId) (ha : h.colArr o c = some a) :
+    ∃ (ho : o < h.objs.length), (c, a) ∈ (h.objs[o]).cols := by
+  unfold Heap.colArr at ha
+  cases hob : h.objs[o]? with
+  | none => simp [hob] at ha
+  | some ob =>
+    obtain ⟨ho, hob'⟩ := List.getElem?_eq_some_iff.mp hob
+    refine ⟨ho, ?_⟩
+    simp only [hob, Option.bind_some, Obj.col?, Option.map_eq_some_iff] at ha
+    obtain ⟨p, hp, rfl⟩ := ha
+    have h1 := List.find?_some hp
+    have h2 := List.mem_of_find?_eq_some hp
+    simp only [beq_iff_eq] at h1
+    subst h1 hob'
+    exact h2
+
+theorem colArr_lt (h : Heap) (hw : WFHeap h) (o : Nat) (c : Col) (a : ArrId) (ha : h.colArr o c = some a) :
+    a < h.arrs.length := by
+  obtain ⟨ho, hm⟩ := colArr_mem h o c a ha
+  exact hw.1 o ho _ hm
+
+theorem getIdx_nat (k n : Nat) (hk : k < n) : Pop.getIdx (k : Int) n = some k := by
+  unfold Pop.getIdx
+  rw [if_neg (by simp; omega), if_neg (by omega)]; simp
+
+theorem wf_congr (h h' : Heap) (ha : h'.arrs.length = h.arrs.length) (ho : h'.objs = h.objs) (hw : WFHeap h) :
+    WFHeap h' := by
+  rw [wf_iff] at hw ⊢
+  rw [ha, ho]; exact hw
+
+theorem setArr_wf (h : Heap) (a k : Nat) (v : Int) (hw : WFHeap h) : WFHeap (setArr h a k v) :=
+  wf_congr h _ (by simp [setArr]) rfl hw
+
+theorem wf_names (h : Heap) (hw : WFHeap h) (o : Nat) (ob : Obj) (ho : h.objs[o]? = some ob) :
+    (ob.cols.map (·.1)).Nodup := ((wf_iff h).mp hw).2.2 o ob ho
+
+/-- the `id` / `pid` renumbering of `detach` keeps the column names -/
+theorem detach_names (h : Heap) (idx : List Int) (n : Nat) (obcols : List (Col × ArrId)) (cols : List (Col × List Int))
+    (hm : obcols.mapM (fun ca => (fancy (h.arr ca.2) idx).map fun d => (ca.1, d)) = some cols) :
+    (cols.map fun cd =>
+      if cd.1 == "id" then (cd.1, (List.range n).map Int.ofNat)
+      else if cd.1 == "pid" then (cd.1, (List.range n).map fun (k : Nat) => (k : Int) - 1)
+      else cd).map (·.1) = obcols.map (·.1) := by
+  obtain ⟨hl, hk⟩ := mapM_some _ _ _ hm
+  apply List.ext_getElem
+  · simp [hl]
+  · intro k h1 h2
+    have h3 : k < obcols.length := by simpa using h2
+    have h4 : k < cols.length := by simpa using h1
+    have := hk k h3 h4
+    simp only [Option.map_eq_some_iff] at this
+    obtain ⟨d, -, hd⟩ := this
+    simp only [List.getElem_map]
+    rw [← hd]
+    simp only
+    split
+    · rfl
+    · split <;> rfl
+
+theorem find?_of_nodup (l : List (Col × ArrId)) (hn : (l.map (·.1)).Nodup) (c : Col) (a : ArrId) (hm : (c, a) ∈ l) :
+    l.find? (·.1 == c) = some (c, a) := by
+  induction l with
+  | nil => cases hm
+  | cons p l ih =>
+    simp only [List.map_cons, List.nodup_cons] at hn
+    rcases List.mem_cons.mp hm with rfl | hm'
+    · simp
+    · have hne : p.1 ≠ c := by
+        intro e
+        apply hn.1
+        rw [e]
+        exact List.mem_map.mpr ⟨(c, a), hm', rfl⟩
+      rw [List.find?_cons_of_neg (by simpa using hne)]
+      exact ih hn.2 hm'
+
+/-- the new object's column `k` is the fresh array `arrs.length + k`, holding the `k`-th data -/
+theorem newObject_col (h : Heap) (cols : List (Col × List Int)) (hn : (cols.map (·.1)).Nodup)
+    (k : Nat) (hk : k < cols.length) :
+    (newObject h cols).1.colArr h.objs.length cols[k].1 = some (h.arrs.length + k) ∧
+    (newObject h cols).1.arr (h.arrs.length + k) = cols[k].2 := by
+  rw [newObject_eq]
+  constructor
+  · simp only [Heap.colArr, List.getElem?_append_right (Nat.le_refl _), Nat.sub_self, List.getElem?_cons_zero,
+      Option.bind_some, Obj.col?]
+    rw [find?_of_nodup _ (by rw [objCols_names]; exact hn) cols[k].1 (h.arrs.length + k)]
+    · rfl
+    · have hk' : k < (objCols h.arrs.length cols).length := by rw [objCols_length]; exact hk
+      rw [← objCols_getElem _ _ k hk']
+      exact List.getElem_mem _
+  · simp [Heap.arr, List.getD, hk]
+
+theorem newObject_arr_old (h : Heap) (cols : List (Col × List Int)) (a : Nat) (ha : a < h.arrs.length) :
+    (newObject h cols).1.arr a = h.arr a := by
+  rw [newObject_eq]
+  simp [Heap.arr, List.getD, List.getElem?_append_left ha]
+
+theorem colArr_of_mem (h : Heap) (hw : WFHeap h) (o : Nat) (ob : Obj) (hob : h.objs[o]? = some ob)
+    (c : Col) (a : ArrId) (hm : (c, a) ∈ ob.cols) : h.colArr o c = some a := by
+  simp only [Heap.colArr, hob, Option.bind_some, Obj.col?]
+  rw [find?_of_nodup _ (wf_names h hw o ob hob) c a hm]; rfl
+
 /-- a freshly built tree is well formed (distinct column names) -/
 theorem mkTree_wf (cols : List (Col × List Int)) (hn : (cols.map (·.1)).Nodup) : WFHeap (mkTree cols) := by
-  sorry
+  apply newObject_wf _ _ _ hn
+  refine ⟨?_, ?_, ?_⟩ <;> intro o <;> simp
 
 /-- **the invariant holds after every operation of every history** -/
 theorem step_wf (h : Heap) (op : Op) (hw : WFHeap h) : WFHeap (step h op).1 := by
-  sorry
+  cases op with
+  | readCol o c => simp only [step] <;> (repeat' split) <;> exact hw
+  | nodeRead o i c => simp only [step] <;> (repeat' split) <;> exact hw
+  | viewRead v c => simp only [step] <;> (repeat' split) <;> exact hw
+  | viewNodeRead v k c => simp only [step] <;> (repeat' split) <;> exact hw
+  | segments o => simp only [step] <;> (repeat' split) <;> exact hw
+  | viewSegments v => simp only [step] <;> (repeat' split) <;> exact hw
+  | nodeWrite o i c v =>
+    simp only [step]
+    split
+    · split
+      · exact setArr_wf _ _ _ _ hw
+      · exact hw
+    · exact hw
+  | ownerWrite o k c v =>
+    simp only [step]
+    split
+    · split
+      · exact setArr_wf _ _ _ _ hw
+      · exact hw
+    · exact hw
+  | mkView o idx => exact wf_congr h _ rfl rfl hw
+  | copy o =>
+    simp only [step]
+    split
+    · rename_i ob hob
+      apply newObject_wf _ _ hw
+      have := wf_names h hw o ob hob
+      simpa [List.map_map, Function.comp_def] using this
+    · exact hw
+  | detach v =>
+    simp only [step]
+    split
+    · rename_i vw hvw
+      split
+      · rename_i ob hob
+        split
+        · rename_i cols hcols
+          apply newObject_wf _ _ hw
+          rw [detach_names h vw.idx vw.idx.length ob.cols cols hcols]
+          exact wf_names h hw _ ob hob
+        · exact hw
+      · exact hw
+    · exact hw
 theorem run_wf (h : Heap) (ops : List Op) (hw : WFHeap h) : WFHeap (run h ops).1 := by
-  sorry
+  unfold run
+  suffices ∀ (acc : Heap × List Out), WFHeap acc.1 →
+      WFHeap (ops.foldl (fun acc op => let r := step acc.1 op; (r.1, acc.2 ++ [r.2])) acc).1 from this (h, []) hw
+  induction ops with
+  | nil => intro acc h; exact h
+  | cons op ops ih =>
+    intro acc h
+    rw [List.foldl_cons]
+    exact ih _ (step_wf _ _ h)
 
 /-- **index normalisation** of node handles: `0 ≤ i < n` is itself, `-n ≤ i < 0` counts from the end, anything
 else is an IndexError -/
@@ -30,7 +353,14 @@ theorem at_spec (l : List Int) (i : Int) :
     (0 ≤ i → i < l.length → at? l i = some (l.getD i.toNat 0)) ∧
     (-(l.length : Int) ≤ i → i < 0 → at? l i = some (l.getD (i + l.length).toNat 0)) ∧
     (i < -(l.length : Int) ∨ (l.length : Int) ≤ i → at? l i = none) := by
-  sorry
+  unfold at? Pop.getIdx
+  refine ⟨?_, ?_, ?_⟩
+  · intro h1 h2
+    rw [if_neg (by simp; omega), if_neg (by omega)]; rfl
+  · intro h1 h2
+    rw [if_neg (by simp; omega), if_pos (by omega)]; rfl
+  · intro h
+    rw [if_pos (by simp; omega)]; rfl
 
 /-- **a view reports exactly the attributes of the nodes it refers to, in order, at the CURRENT state of the
 owner** (so it tracks every later write): reading column `c` through view `v` is the owner's array of `c`,
@@ -39,14 +369,16 @@ theorem view_reads_owner (h : Heap) (v : Nat) (vw : View) (c : Col) (a : ArrId)
     (hv : h.views[v]? = some vw) (ha : h.colArr vw.owner c = some a) :
     (step h (.viewRead v c)).2 = (match fancy (h.arr a) vw.idx with | some l => .vals l | none => .err) ∧
     (step h (.viewRead v c)).1 = h := by
-  sorry
+  simp only [step, hv, viewCol, ha, Option.bind_some]
+  cases fancy (h.arr a) vw.idx <;> simp
 
 /-- reading never changes the heap -/
 theorem reads_pure (h : Heap) (op : Op)
     (hr : (∃ o c, op = .readCol o c) ∨ (∃ o i c, op = .nodeRead o i c) ∨ (∃ v c, op = .viewRead v c) ∨
           (∃ v k c, op = .viewNodeRead v k c) ∨ (∃ o, op = .segments o) ∨ (∃ v, op = .viewSegments v)) :
     (step h op).1 = h := by
-  sorry
+  rcases hr with ⟨o, c, rfl⟩ | ⟨o, i, c, rfl⟩ | ⟨v, c, rfl⟩ | ⟨v, k, c, rfl⟩ | ⟨o, rfl⟩ | ⟨v, rfl⟩ <;>
+    simp only [step] <;> (repeat' split) <;> rfl
 
 /-- **assigning through a node handle of a tree is visible in the owner**: exactly the addressed cell of the
 owner's array changes; every other array — in particular every array of every other object — is untouched -/
@@ -54,14 +386,24 @@ theorem node_write_through (h : Heap) (hw : WFHeap h) (o : Nat) (i : Int) (c : C
     (ha : h.colArr o c = some a) (hk : Pop.getIdx i (h.arr a).length = some k) :
     let h' := (step h (.nodeWrite o i c v)).1
     h'.arr a = (h.arr a).set k v ∧ (∀ a', a' ≠ a → h'.arr a' = h.arr a') ∧ h'.objs = h.objs ∧ h'.views = h.views := by
-  sorry
+  simp only [step, ha, hk]
+  exact ⟨setArr_arr_self h a k v (colArr_lt h hw o c a ha), fun a' hne => setArr_arr_ne h a a' k v hne, rfl, rfl⟩
 
 /-- … and therefore every view of that owner sees the new value at once -/
 theorem write_then_view_read (h : Heap) (hw : WFHeap h) (o : Nat) (k : Nat) (c : Col) (x : Int) (a : ArrId)
     (ha : h.colArr o c = some a) (hk : k < (h.arr a).length) (v : Nat) (vw : View) (hv : h.views[v]? = some vw) (ho : vw.owner = o) :
     let h' := (step h (.nodeWrite o (k : Int) c x)).1
     (step h' (.viewRead v c)).2 = (match fancy ((h.arr a).set k x) vw.idx with | some l => .vals l | none => .err) := by
-  sorry
+  intro h'
+  obtain ⟨h1, _, h3, h4⟩ := node_write_through h hw o k c x a k ha (getIdx_nat _ _ hk)
+  change h'.arr a = _ at h1
+  change h'.objs = _ at h3
+  change h'.views = _ at h4
+  have hv' : h'.views[v]? = some vw := by rw [h4]; exact hv
+  have ha' : h'.colArr vw.owner c = some a := by
+    rw [ho]; unfold Heap.colArr; rw [h3]; exact ha
+  simp only [step, hv', viewCol, ha', Option.bind_some, h1]
+  cases fancy ((h.arr a).set k x) vw.idx <;> rfl
 
 /-- **a tree copy has equal content and its own storage** -/
 theorem copy_fresh (h : Heap) (hw : WFHeap h) (o : Nat) (ho : o < h.objs.length) :
@@ -69,7 +411,23 @@ theorem copy_fresh (h : Heap) (hw : WFHeap h) (o : Nat) (ho : o < h.objs.length)
     r.2 = .newObj h.objs.length ∧ r.1.objs.length = h.objs.length + 1 ∧
     (∀ a, a < h.arrs.length → r.1.arr a = h.arr a) ∧
     (∀ c a, h.colArr o c = some a → ∃ a', r.1.colArr h.objs.length c = some a' ∧ h.arrs.length ≤ a' ∧ r.1.arr a' = h.arr a) := by
-  sorry
+  have hob : h.objs[o]? = some h.objs[o] := List.getElem?_eq_getElem ho
+  simp only [step, hob]
+  generalize hcols : (h.objs[o].cols.map fun ca => (ca.1, h.arr ca.2)) = cols
+  have hn : (cols.map (·.1)).Nodup := by
+    have := wf_names h hw o _ hob
+    rw [← hcols]
+    simpa [List.map_map, Function.comp_def] using this
+  refine ⟨by rw [newObject_eq], by simp [newObject_eq], fun a ha => newObject_arr_old h cols a ha, ?_⟩
+  intro c a hca
+  obtain ⟨_, hm⟩ := colArr_mem h o c a hca
+  obtain ⟨k, hk, hke⟩ := List.mem_iff_getElem.mp hm
+  have hk' : k < cols.length := by rw [← hcols]; simpa using hk
+  have hck : cols[k] = (c, h.arr a) := by
+    subst hcols; simp [hke]
+  obtain ⟨h1, h2⟩ := newObject_col h cols hn k hk'
+  rw [hck] at h1 h2
+  exact ⟨h.arrs.length + k, h1, Nat.le_add_right _ _, h2⟩
 
 /-- **a detached path / branch / compartment has the viewed content and its own storage** (ids renumbered
 `0..m-1`, parents `-1..m-2`) -/
@@ -80,25 +438,79 @@ theorem detach_fresh (h : Heap) (hw : WFHeap h) (v : Nat) (vw : View) (hv : h.vi
     (∀ a, a < h.arrs.length → r.1.arr a = h.arr a) ∧
     (∀ c a, h.colArr vw.owner c = some a → c ≠ "id" → c ≠ "pid" →
         ∃ a', r.1.colArr h.objs.length c = some a' ∧ h.arrs.length ≤ a' ∧ some (r.1.arr a') = fancy (h.arr a) vw.idx) := by
-  sorry
+  have hob : h.objs[vw.owner]? = some h.objs[vw.owner] := List.getElem?_eq_getElem ho
+  generalize h.objs[vw.owner] = ob at hob
+  have hsome : (ob.cols.mapM (fun ca => (fancy (h.arr ca.2) vw.idx).map fun d => (ca.1, d))).isSome := by
+    apply mapM_isSome
+    intro ca hca
+    have := hidx ca.1 ca.2 (colArr_of_mem h hw _ ob hob ca.1 ca.2 hca)
+    simpa using this
+  obtain ⟨cols, hcols⟩ := Option.isSome_iff_exists.mp hsome
+  simp only [step, hv, hob, hcols]
+  have hnames := detach_names h vw.idx vw.idx.length ob.cols cols hcols
+  obtain ⟨hlen, hget⟩ := mapM_some _ _ _ hcols
+  generalize hcols' : (cols.map fun cd =>
+      if cd.1 == "id" then (cd.1, (List.range vw.idx.length).map Int.ofNat)
+      else if cd.1 == "pid" then (cd.1, (List.range vw.idx.length).map fun (k : Nat) => (k : Int) - 1)
+      else cd) = cols' at hnames
+  have hn : (cols'.map (·.1)).Nodup := by rw [hnames]; exact wf_names h hw _ ob hob
+  refine ⟨by rw [newObject_eq], fun a ha => newObject_arr_old h cols' a ha, ?_⟩
+  intro c a hca hc1 hc2
+  obtain ⟨_, hm⟩ := colArr_mem h _ c a hca
+  have hob' := (List.getElem?_eq_some_iff.mp hob).2
+  rw [hob'] at hm
+  obtain ⟨k, hk, hke⟩ := List.mem_iff_getElem.mp hm
+  have hk1 : k < cols.length := by omega
+  have hk' : k < cols'.length := by rw [← hcols']; simpa using hk1
+  have hg := hget k hk hk1
+  rw [hke] at hg
+  simp only [Option.map_eq_some_iff] at hg
+  obtain ⟨d, hd, hd'⟩ := hg
+  have hck : cols'[k] = (c, d) := by
+    subst hcols'
+    simp only [List.getElem_map, ← hd']
+    simp [hc1, hc2]
+  obtain ⟨h1, h2⟩ := newObject_col h cols' hn k hk'
+  rw [hck] at h1 h2
+  exact ⟨h.arrs.length + k, h1, Nat.le_add_right _ _, by rw [h2, hd]⟩
 
 /-- **independence for every later interleaving**: a write addressed to one object never changes an array of
 another object (the invariant holds at every reachable state, `run_wf`) -/
 theorem write_frame (h : Heap) (hw : WFHeap h) (o o' : Nat) (hne : o ≠ o') (i : Int) (k : Nat) (c c' : Col) (v : Int) (a' : ArrId)
     (ho' : h.colArr o' c' = some a') (hoo : o < h.objs.length) (hoo' : o' < h.objs.length) :
     (step h (.nodeWrite o i c v)).1.arr a' = h.arr a' ∧ (step h (.ownerWrite o k c v)).1.arr a' = h.arr a' := by
-  sorry
+  have key : ∀ a, h.colArr o c = some a → a' ≠ a := by
+    intro a ha e
+    obtain ⟨h1, m1⟩ := colArr_mem h o c a ha
+    obtain ⟨h2, m2⟩ := colArr_mem h o' c' a' ho'
+    exact hne (hw.2.1 o o' h1 h2 _ m1 _ m2 e.symm).1
+  simp only [step]
+  constructor
+  · split
+    · rename_i a ha
+      split
+      · exact setArr_arr_ne h a a' _ v (key a ha)
+      · rfl
+    · rfl
+  · split
+    · rename_i a ha
+      split
+      · exact setArr_arr_ne h a a' _ v (key a ha)
+      · rfl
+    · rfl
 
 /-- **a tree's segments are its (parent, child) pairs**, one per non-root row, in order -/
 theorem tree_segments (h : Heap) (o : Nat) (p i : ArrId) (hp : h.colArr o "pid" = some p) (hi : h.colArr o "id" = some i) :
     (step h (.segments o)).2 = .pairs (((h.arr p).zip (h.arr i)).drop 1) := by
-  sorry
+  simp only [step, hp, hi]
 
 /-- **a branch's segments are its consecutive node pairs** -/
 theorem branch_segments (h : Heap) (v : Nat) (vw : View) (a : ArrId) (ids : List Int) (hv : h.views[v]? = some vw)
     (ha : h.colArr vw.owner "id" = some a) (hf : fancy (h.arr a) vw.idx = some ids) :
     (step h (.viewSegments v)).2 = .pairs (ids.zip (ids.drop 1)) ∧ (ids.zip (ids.drop 1)).length = ids.length - 1 := by
-  sorry
+  constructor
+  · simp only [step, hv, viewCol, ha, Option.bind_some, hf]
+  · simp [List.length_zip]
 
 -- non-vacuity / concrete behaviour: write through a node, read through a branch view, detach, write again
 def exH : Heap := mkTree [("id", [0, 1, 2, 3]), ("pid", [-1, 0, 1, 1]), ("x", [5, 6, 7, 8])]
